@@ -116,8 +116,9 @@ def validate_dedupe(res: BfsResult, expand, limit=24):
     outs = core.pmap(expand, nodes, 1)
     bad = []
     for i, (a, b) in enumerate(pairs):
-        ra = [(l, k, bool(v), o) for l, _, k, v, o in outs[2 * i]]
-        rb = [(l, k, bool(v), o) for l, _, k, v, o in outs[2 * i + 1]]
+        # (the outcome class is an evidence statistic that may legitimately depend on the path)
+        ra = [(l, k, bool(v)) for l, _, k, v, o in outs[2 * i]]
+        rb = [(l, k, bool(v)) for l, _, k, v, o in outs[2 * i + 1]]
         if ra != rb:
             bad.append((a, b))
     return len(pairs), bad
